@@ -1,6 +1,7 @@
 package c15
 
 import (
+	"bytes"
 	"encoding/base64"
 	"encoding/json"
 	"fmt"
@@ -9,10 +10,95 @@ import (
 	"strings"
 	"testing"
 
+	"github.com/pgavlin/dawn"
+	"github.com/pgavlin/dawn/pickle"
 	"github.com/pgavlin/dawn/verif/ev"
 	"github.com/pgavlin/dawn/verif/projsim"
+	"go.starlark.net/starlark"
 	"pgregory.net/rapid"
 )
+
+// restructure edits a decoded function environment (a dict of plain values) the ways a record written by
+// another version of dawn, or a hand-edited or damaged one, may differ from what this version writes: parts
+// this version does not know, parts missing, parts of another type, parts that contain the environment
+// itself. The result is pickled plainly; it decodes to the same dict.
+func restructure(p []byte, sel, arg int) ([]byte, string, bool) {
+	v, err := pickle.NewDecoder(bytes.NewReader(p), dawn.VerifEnvUnpickler).Decode()
+	if err != nil {
+		return nil, "", false
+	}
+	env, ok := v.(*starlark.Dict)
+	if !ok {
+		return nil, "", false
+	}
+	keys := env.Keys()
+	var what string
+	junk := []starlark.Value{starlark.None, starlark.MakeInt(arg), starlark.String("x"), starlark.Tuple{}, starlark.NewList(nil), starlark.NewDict(0), starlark.Bytes("b"), starlark.True}[arg%8]
+	nested := func() *starlark.Dict {
+		// some nested function's environment, if there is one
+		if fv, found, _ := env.Get(starlark.String("function values")); found {
+			if tup, ok := fv.(starlark.Tuple); ok {
+				for _, e := range tup {
+					if d, ok := e.(*starlark.Dict); ok {
+						return d
+					}
+				}
+			}
+		}
+		return nil
+	}
+	switch sel % 8 {
+	case 0:
+		env.SetKey(starlark.String([]string{"x", "annotations", "docstring", ""}[arg%4]), junk)
+		what = "extra-part"
+	case 1:
+		if len(keys) == 0 {
+			return nil, "", false
+		}
+		env.Delete(keys[arg%len(keys)])
+		what = "part-missing"
+	case 2:
+		if len(keys) == 0 {
+			return nil, "", false
+		}
+		env.SetKey(keys[(arg/8)%len(keys)], junk)
+		what = "part-of-another-type"
+	case 3:
+		env.SetKey(starlark.String("function values"), starlark.Tuple{env})
+		what = "contains-itself"
+	case 4:
+		env.SetKey(starlark.String("global values"), env)
+		what = "contains-itself"
+	case 5:
+		if d := nested(); d != nil {
+			d.SetKey(starlark.String("function values"), starlark.Tuple{d, env})
+			what = "nested-contains-itself"
+		} else {
+			env.SetKey(starlark.String("free variables"), starlark.NewList([]starlark.Value{env}))
+			what = "contains-itself"
+		}
+	case 6:
+		if d := nested(); d != nil {
+			d.SetKey(starlark.String("extra"), junk)
+			what = "nested-extra-part"
+		} else {
+			env.SetKey(starlark.String("extra"), junk)
+			what = "extra-part"
+		}
+	default:
+		// all parts this version knows are gone
+		for _, k := range keys {
+			env.Delete(k)
+		}
+		env.SetKey(starlark.String("v2"), junk)
+		what = "only-unknown-parts"
+	}
+	var buf bytes.Buffer
+	if err := pickle.NewEncoder(&buf, nil).Encode(env); err != nil {
+		return nil, "", false
+	}
+	return buf.Bytes(), what, true
+}
 
 // RecordCase: build a generated project, make one target genuinely stale, corrupt its
 // persisted record, then load and build again.
@@ -46,6 +132,27 @@ func sharedDAG(levels int) []byte {
 	return b
 }
 
+// tupleDAG is the same for tuples, built bottom up: T0 = (), Ti = (Ti-1, Ti-1), every level fetched from the
+// memo; the stack holds T0..Tn when it ends. Tuples are hashable: wrap is "key" (the DAG is the key of a
+// dict), "set" (an element of a set), "frozenset", or "value" (the value under a small key).
+func tupleDAG(levels int, wrap string) []byte {
+	b := []byte{')', 0x94}
+	for k := 1; k <= levels; k++ {
+		b = append(b, 'h', byte(k-1), 'h', byte(k-1), 0x86, 0x94)
+	}
+	switch wrap {
+	case "key":
+		b = append(b, '}', '(', 'h', byte(levels), 'N', 'u')
+	case "set":
+		b = append(b, 0x8f, '(', 'h', byte(levels), 0x90)
+	case "frozenset":
+		b = append(b, '(', 'h', byte(levels), 0x91)
+	default:
+		b = append(b, '}', '(', 'K', 1, 'h', byte(levels), 'u')
+	}
+	return append(b, '.')
+}
+
 // wrongShape returns a pickle that hands dawn's unpickler an object of one of its classes whose
 // arguments have the right count but the wrong shape, the offending one being a doubling DAG.
 func wrongShape(class string, before, after int) []byte {
@@ -71,6 +178,9 @@ func init() {
 		foreignPickles = append(foreignPickles, wrongShape(c.class, c.before, c.after))
 	}
 	foreignPickles = append(foreignPickles, append(sharedDAG(60), '.'))
+	for _, wrap := range []string{"value", "key", "set", "frozenset"} {
+		foreignPickles = append(foreignPickles, tupleDAG(60, wrap), tupleDAG(12, wrap))
+	}
 }
 
 var foreignPickles = [][]byte{[]byte("N."), []byte("K\x01."), []byte("]\x94."), []byte("}\x94."), []byte("\x8c\x01a."), []byte(")."), []byte("]\x94(K\x01K\x02e."),
@@ -98,9 +208,13 @@ func execRecord(c RecordCase) (v ev.Verdict) {
 	}
 	cl := m.Closure(top)
 	t := cl[c.T%len(cl)]
-	// make t genuinely stale: change its body
-	m.Targets[t].Salt += 1000
-	sim.Sync()
+	// make t genuinely stale: change its body (for restructured records also not: the record then differs
+	// from the current environment in nothing but the edit)
+	stale := !(c.Mode == 6 && c.Pos%2 == 1)
+	if stale {
+		m.Targets[t].Salt += 1000
+		sim.Sync()
+	}
 
 	label := m.Label(t)
 	if c.Source {
@@ -131,7 +245,7 @@ func execRecord(c RecordCase) (v ev.Verdict) {
 	}
 	var out []byte
 	mode := c.Mode
-	if c.Source && (mode == 2 || mode == 4) {
+	if c.Source && (mode == 2 || mode == 4 || mode == 6) {
 		mode = 3
 	}
 	switch mode {
@@ -170,6 +284,22 @@ func execRecord(c RecordCase) (v ev.Verdict) {
 		rec["stamp"] = base64.StdEncoding.EncodeToString(raw)
 		out, _ = json.Marshal(rec)
 		v.Classes = append(v.Classes, "soup-stamp")
+	case 6:
+		p, derr := base64.StdEncoding.DecodeString(stamp)
+		if derr != nil || len(p) == 0 {
+			return ev.Verdict{Skip: "stamp-not-base64"}
+		}
+		arg := 0
+		if len(c.Muts) > 0 {
+			arg = c.Muts[0].Arg
+		}
+		rp, what, ok := restructure(p, c.Pos/2, arg)
+		if !ok {
+			return ev.Verdict{Skip: "stamp-not-an-environment"}
+		}
+		rec["stamp"] = base64.StdEncoding.EncodeToString(rp)
+		out, _ = json.Marshal(rec)
+		v.Classes = append(v.Classes, "restructured-env:"+what)
 	case 4:
 		rec["stamp"] = base64.StdEncoding.EncodeToString(foreignPickles[c.Pos%len(foreignPickles)])
 		out, _ = json.Marshal(rec)
@@ -228,7 +358,7 @@ func execRecord(c RecordCase) (v ev.Verdict) {
 			executed = true
 		}
 	}
-	if !executed {
+	if !executed && stale {
 		return ev.Failf("corrupt-record-up-to-date", "%s: the build succeeds and treats the stale target %s as up to date (executed: %v)", where, m.Label(t), res.Executed())
 	}
 	twin, products := sim.CleanBuild(projsim.BuildReq{Label: m.Label(top)})
@@ -247,7 +377,7 @@ func execRecord(c RecordCase) (v ev.Verdict) {
 }
 
 func genRecord(t *rapid.T) RecordCase {
-	c := RecordCase{Watch: rapid.IntRange(0, 3).Draw(t, "watch") == 3, M: projsim.GenModel(t, 5, false), T: rapid.IntRange(0, 7).Draw(t, "t"), Mode: rapid.SampledFrom([]int{2, 0, 1, 3, 4, 5, 2, 2}).Draw(t, "mode"),
+	c := RecordCase{Watch: rapid.IntRange(0, 3).Draw(t, "watch") == 3, M: projsim.GenModel(t, 5, false), T: rapid.IntRange(0, 7).Draw(t, "t"), Mode: rapid.SampledFrom([]int{2, 0, 1, 3, 4, 5, 2, 2, 6, 6, 6}).Draw(t, "mode"),
 		Pos: rapid.IntRange(0, 4095).Draw(t, "pos"), Source: rapid.IntRange(0, 5).Draw(t, "source") == 5}
 	n := rapid.IntRange(0, 4).Draw(t, "nmut")
 	for i := 0; i < n; i++ {
